@@ -6,6 +6,10 @@
 (*   op {op: "obs", len, front, range, n, prange}   Len, Front, a complete   *)
 (*                             Range and a Range stopped at the n-th value,  *)
 (*                             taken together after a mutation               *)
+(*   op {op: "hung", in}       the operation `in` did not return: the        *)
+(*                             watchdog (2 s) gave up, or a Range was still  *)
+(*                             calling back after 100000 elements            *)
+(*   op {op: "panic", in, what}                                              *)
 (* Values: the harness appends pointers to numbers (some of them 0) and nil  *)
 (* pointers; it records the number pointed to, -1 for nil.  Deterministic.   *)
 EXTENDS BufRing, TraceLib
@@ -23,7 +27,9 @@ ObsWhy(b, e) ==
       [] e.prange # Res(b, [op |-> "range", n |-> e.n]) -> "range-stopped-early:result-differs-from-fifo-queue"
       [] OTHER -> ""
 CNext(m, e) ==
-    IF e.op = "obs" THEN [m EXCEPT !.why = ObsWhy(m.b, e)]
+    IF e.op = "hung" THEN [m EXCEPT !.why = e.in \o ":never-returned"]       \* every operation of a queue is total
+    ELSE IF e.op = "panic" THEN [m EXCEPT !.why = e.in \o ":panicked"]
+    ELSE IF e.op = "obs" THEN [m EXCEPT !.why = ObsWhy(m.b, e)]
     ELSE IF ~Enabled(m.b, e) THEN [m EXCEPT !.why = "harness:remove-on-empty-generated"]
     ELSE LET a == BApply(m.b, e) IN
          IF e.res # a.res THEN [m EXCEPT !.why = e.op \o ":result-differs-from-fifo-queue"]
